@@ -989,8 +989,10 @@ def soup_cases():
                                    "kwargs": st.just({}), "matrix_type": st.none()})
     plain2 = st.fixed_dictionaries({"text": docs.plain_newick_mutants(), "schema": st.just("newick"),
                                     "kwargs": st.just({}), "matrix_type": st.none()})
-    return st.one_of(one("newick"), plain, plain2, plain2, one("nexus"), one("nexus"), stmt, stmt, stmt, stmt, stmt, one("phylip"),
-                     one("fasta"))
+    link = st.fixed_dictionaries({"text": docs.nexus_link_soups(), "schema": st.just("nexus"),
+                                  "kwargs": st.just({}), "matrix_type": st.just("dna"), "ns": NS_SOUP})
+    return st.one_of(one("newick"), plain, plain2, plain2, one("nexus"), one("nexus"), stmt, stmt, stmt, stmt, stmt,
+                     link, link, link, link, one("phylip"), one("fasta"))
 
 
 DEEP_DEPTHS = (10, 100, 900, 2500, 3500, 6000)
